@@ -123,7 +123,11 @@ func c16Gen(r *Rng, tier string, i int) Sx {
 	// (a base path may hold variables - a resource nested under another one: the probes instantiate them)
 	g = strings.NewReplacer("{uid}", "u1", "{org}", "acme", "{tid:\\d+}", "42").Replace(g)
 	g0 := g
-	if ng > 0 {
+	gp := "/g" // the prefix of the enclosing group (when there is one): sometimes the root
+	if ng > 0 && r.Chance(1, 4) {
+		gp = r.Pick([]string{"/", ""})
+	}
+	if ng > 0 && gp == "/g" {
 		g = "/g" + g
 	}
 	paths := []string{g, g + "/", g + "/create", g + "/7", g + "/7/edit", g + "/create/edit", g + "/7/x", g + "/x/y/z", "/", g + "x", g + "/search", g + "/leak", "/leak",
@@ -133,7 +137,7 @@ func c16Gen(r *Rng, tier string, i int) Sx {
 	twice := kind == "ptr" && r.Chance(1, 5)
 	if twice {
 		g2 := "/zz" + g0
-		if ng > 0 {
+		if ng > 0 && gp == "/g" {
 			g2 = "/g" + g2
 		}
 		paths = append(paths, g2, g2+"/create", g2+"/7", g2+"/7/edit")
@@ -146,7 +150,7 @@ func c16Gen(r *Rng, tier string, i int) Sx {
 			}
 		}
 	}
-	return L(A("c16"), I(mask), B(uses), S(base), B(strict), A(kind), S(res), LS(probes), I(ng), I(nm), B(twice), I(r.Intn(3)))
+	return L(A("c16"), I(mask), B(uses), S(base), B(strict), A(kind), S(res), LS(probes), I(ng), I(nm), B(twice), I(r.Intn(3)), S(gp))
 }
 
 func c16Exec(c Sx) (out Sx) {
@@ -210,7 +214,11 @@ func c16Exec(c Sx) (out Sx) {
 		second := "/zz/" + strings.TrimLeft(base, "/")
 		if ng > 0 {
 			// group middleware added through Use inside the group: the slice grows by append
-			r.Group("/g", func() {
+			gp := "/g"
+			if len(c.List) >= 13 {
+				gp = c.List[12].Str()
+			}
+			r.Group(gp, func() {
 				for _, h := range gm {
 					r.Use(h)
 				}
